@@ -215,7 +215,7 @@ CHECKS["C16"] = {
     "level": "proof",
     "lean_targets": ["Yae.Props.C16", "Yae.Props.C02"],
     "streams": [
-        EVAL(4000, 60000, kinds=["check", "run"], projections=["accept", "class"], model_is_oracle=["check"], input_regex=r"\b(mb|ms|om)\b|maybe|Nothing|Just"),
+        EVAL(4000, 60000, kinds=["check", "run"], projections=["accept", "class"], model_is_oracle=["check", "run"], input_regex=r"\b(mb|ms|om|mb2|om2)\b|maybe|Nothing|Just"),
         {"name": "conv", "quick_n": 4000, "thorough_n": 50000, "oracles_only": True, "oracles": ["conv-wf", "conv-type-disagrees"]},
     ],
     "explanation": "Proved: unification of a pattern with an optional type succeeds only for a variable, an optional pattern (or top, which no registered signature contains) (no_coercion, builtins_no_top); in every accepted call an optional argument meets a type-variable or optional parameter (accepted_call_no_coercion); by decide over the regenerated built-in table the only optional parameter is get's and the bare-variable positions are listed (sole_eliminator); member and subscript on an optional are rejected (member_rejected, subscript_rejected); get(optional, d) yields payload or default (get_maybe_spec); accepted programs over environments with absent values never fail because of them (C02.progress with WF admitting nothing). Tie: eval stream with optional-typed variables present/absent and nested, conv stream with nil pointers/slices/maps.",
